@@ -606,6 +606,7 @@ def run(report, p):
     include_rules(report, p, 'c12', ['R12.1'], 'what is sealed depends on the tree and its own history only: the effective patterns come from the history AT the root (and the command line), never from a history found in an ancestor folder of the root')
     include_rules(report, p, 'c17', ['R17.1'], 'the expected set and the traversal are compared by string equality: both must spell a path the same way for every spelling of the root (., ./tree, a/../b, //)')
     include_rules(report, p, 'c07', ['R7.2'], 'directory hashes must not depend on enumeration order: the list hash sorts')
+    include_rules(report, p, 'c17', ['R17.12'], 'a previous path is written into the manifest: it must be the history-relative spelling, never the absolute location of the tree at the time of the run')
     include_rules(report, p, 'c17', ['R17.8', 'R17.6'], 'which (new path, missing path) pairs are matched must not depend on the iteration order of sets of absolute paths: every pair is compared, none is skipped because an earlier one matched')
     report.not_decided += ["byte identity of manifests at run time", "behaviour under exotic spellings of the root path (a/../b, symlinked ancestors)", "order of 'missing file' lines in the console output"]
 
